@@ -10,6 +10,8 @@ Every model states the *library's* contract, nothing about quantem:
 * ``np.pad(x, widths, mode="constant")``: ``out[i] = x[i - before]`` inside, 0 outside, length ``before + n + after``;
   other modes: the interior only (border values unspecified);
 * ``np.floor / np.ceil / np.prod / np.isrealobj`` on scalars / short lists;
+* value kinds: ``np.asarray / np.array / ndarray.astype`` with a REAL dtype applied to a COMPLEX array discard the imaginary part
+  (result = Re x, real-valued; a ghost step "R-linear only" is logged); real -> complex and same-kind conversions keep the values;
 * A5: ``fftn / ifftn`` are uninterpreted linear operators (one fresh function symbol per application, recorded in the
   ghost log ``ctx.ghost['c06_dft']``); ``fftshift`` / ``ifftshift`` are the index maps ``out[i] = in[(i - n//2) mod n]`` /
   ``out[i] = in[(i + n//2) mod n]`` (written with one conditional wrap, valid for 0 <= i < n); ``x.real`` is the
@@ -194,6 +196,28 @@ def dft_log(ctx):
     return ctx.ghost.setdefault("c06_dft", [])
 
 
+def step_log(ctx):
+    """Ghost list of the data steps that are NOT linear over the complex numbers: ('Re' | 'cast ...', 'R') = R-linear only,
+    (..., 'N') = not linear.  (fftn, ifftn, index selection, rotation, zero padding, scaling are C-linear and not listed.)"""
+    return ctx.ghost.setdefault("c06_steps", [])
+
+
+def array_key(fn, nd):
+    """Canonical name of an array VALUE: its index function at canonical indices (copies of an array share the key)."""
+    idx = [z3.Int(f"i!key{k}") for k in range(nd)]
+    return z3.simplify(lift(S(fn(*idx)))).sexpr()
+
+
+def total_func(fn, nd, axes):
+    """A5 ghost: TOT(i) = sum over `axes` of the array with index function `fn` (the indices on `axes` are ignored)."""
+    return z3.Function(f"TOT{sorted(set(axes))}[{array_key(fn, nd)}]", *([z3.IntSort()] * nd), z3.RealSort())
+
+
+def mean_func(func, nd, axes):
+    """A5 ghost: MEAN(i) = mean over `axes` of the array given by the z3 function `func`."""
+    return z3.Function(f"MEAN{sorted(set(axes))}[{func.name()}]", *([z3.IntSort()] * nd), z3.RealSort())
+
+
 def _wrap_idx(i, shift, n):
     """(i + shift) mod n for 0 <= i < n and -n <= shift <= n, without a symbolic modulus."""
     j = i + shift
@@ -279,11 +303,15 @@ def install(reg):
             return real_part(base)
         if name == "sum":
             return _Bound(lambda axis=None, **kw: m_sum(interp, base, axis=axis, **kw))
+        if name == "astype" and hasattr(base, "is_real"):
+            return _Bound(lambda dt, *a, **kw: cast(interp, base, dt, copy=True))
+        if name == "dtype" and getattr(base, "is_real", True) is False:
+            return "complex"
         return NotImplemented
 
     reg.attr_models[SymArr] = arr_attr
 
-    def real_part(x):
+    def real_part(x, why="Re"):
         if getattr(x, "is_real", False):
             return x
         xf = x.fn  # (numpy: a view of the real parts; the values are those at the time of the read)
@@ -291,9 +319,51 @@ def install(reg):
         r.as_type = np.ndarray
         r.is_real = True
         r.lin = getattr(x, "lin", None)
+        step_log(V.cur()).append((why, "R"))  # R-linear, not C-linear
         return r
 
     reg.c06_real_part = real_part
+
+    # ---------------------------------------------------------------- value kind (real / complex) under dtype conversions
+    def _dtype_kind(dt):
+        if dt is None:
+            return None
+        if dt in (float, int, bool):
+            return "real"
+        if dt is complex:
+            return "complex"
+        try:
+            k = np.dtype(dt).kind
+        except TypeError:
+            return None
+        return "complex" if k == "c" else "real" if k in "fiub" else None
+
+    def cast(interp, x, dt, copy):
+        """numpy: converting a complex array to a real dtype DISCARDS the imaginary part (ComplexWarning only); converting a
+        real array to a complex dtype keeps the values (imaginary part 0); same-kind conversions keep the values (A1/A2)."""
+        kind = _dtype_kind(dt)
+        xreal = getattr(x, "is_real", True)
+        if kind == "real" and not xreal:
+            return real_part(x, why=f"cast of a complex array to a real dtype")
+        r = SymArr.astype(x, dt) if (copy and dt is not None) else (x.copy() if copy else x)
+        if r is not x:
+            r.as_type = getattr(x, "as_type", np.ndarray)
+        if hasattr(x, "is_real") or kind == "complex":
+            if kind == "complex" and xreal and r is x:
+                r = x.copy()
+                r.as_type = getattr(x, "as_type", np.ndarray)
+            r.is_real = False if kind == "complex" else xreal
+        return r
+
+    for _f, _copy in ((np.asarray, False), (np.array, True), (np.ascontiguousarray, False), (np.asanyarray, False)):
+        def _h(interp, x, *a, _prev=M.get(_f), _copy=_copy, _f=_f, **kw):
+            dt = kw.get("dtype", a[0] if a else None)
+            if isinstance(x, SymArr) and not x.pylist and hasattr(x, "is_real") and (dt is not None or _copy):
+                return cast(interp, x, dt, copy=_copy and kw.get("copy", True) is not False)
+            if _prev is not None:
+                return _prev(interp, x, *a, **kw)
+            return interp.native(_f, x, *a, **kw)
+        M[_f] = _h
 
     # ---------------------------------------------------------------- numpy scalar helpers
     def m_floor(interp, x):
@@ -419,6 +489,8 @@ def install(reg):
         r.as_type = np.ndarray
         r.is_real = getattr(x, "is_real", True)
         r.lin = getattr(x, "lin", None) if (mode == "constant" and cval == 0) else None
+        if mode == "constant" and not (isinstance(cval, (int, float)) and cval == 0):
+            step_log(interp.ctx).append(("np.pad with a non-zero constant", "N"))
         return r
 
     M[np.pad] = m_pad
